@@ -1,5 +1,5 @@
 import Model
-import Generated
+import Generated.Facts
 import Proofs.C08
 
 /-
